@@ -20,6 +20,7 @@ class O:
     b: int
     items: List["O"] = field(default_factory=list)
     ref: Optional["O"] = None
+    s: frozenset = frozenset()
 
     def __repr__(self):
         return self.name
@@ -29,10 +30,18 @@ def make_world():
     w = {"o1": O("o1", 0, 0), "o2": O("o2", 0, 1), "o3": O("o3", 1, 0), "o4": O("o4", 1, 1)}
     items = {"o1": [], "o2": ["o1"], "o3": ["o1", "o4"], "o4": ["o4", "o2"]}
     ref = {"o1": "o2", "o2": "o2", "o3": "o4", "o4": "o1"}
+    sets = {"o1": frozenset(), "o2": frozenset({1}), "o3": frozenset({2}), "o4": frozenset({1, 2})}
     for n, o in w.items():
         o.items = [w[i] for i in items[n]]
         o.ref = w[ref[n]]
+        o.s = sets[n]
     return w
+
+
+def edit_world(on):
+    """The in-place edit of EQLCore's second world (o1.a := 1, o4.b := 0), and its undo."""
+    WORLD["o1"].a = 1 if on else 0
+    WORLD["o4"].b = 0 if on else 1
 
 
 WORLD = make_world()
@@ -57,6 +66,9 @@ def build(e, V, variant):
         l, r = term(e[2], V), term(e[3], V)
         op = e[1]
         return {"eq": lambda: l == r, "ne": lambda: l != r, "lt": lambda: l < r, "ge": lambda: l >= r}[op]()
+    if k == "scmp":
+        l, r = term(e[2], V), term(e[3], V)
+        return (l < r) if e[1] == "lt" else (l >= r)
     if k == "in":
         item, coll = term(e[1], V), term(e[2], V)
         return in_(item, coll) if variant % 2 == 0 else contains(coll, item)
@@ -86,10 +98,12 @@ def make_vars(dom):
 def make_query(cond, dom, sel, variant, quant="an", constraint=None, V=None):
     V = V or make_vars(dom)
     c = build(cond, V, variant)
+    S = {s: (V[s] if s in V else getattr(V["x"], s.split(".")[1])) for s in sel}     # "x.a" = a selected attribute expression
+    V["__sel__"] = S
     if len(sel) == 1 and variant % 3 != 2:
-        d = entity(V[sel[0]], c)
+        d = entity(S[sel[0]], c)
     else:
-        d = set_of([V[s] for s in sel], c)
+        d = set_of([S[s] for s in sel], c)
     if quant == "the":
         return the(d), V, d
     return an(d, quantification=constraint), V, d
@@ -101,14 +115,19 @@ def rows_of(results, V, sel, d):
         if type(d).__name__ == "Entity":
             rows.append([r.name if isinstance(r, O) else repr(r)])
         else:
-            rows.append([r[V[s]].name for s in sel])
+            row = []
+            for s in sel:
+                v = r[V["__sel__"][s]]
+                row.append(v.name if isinstance(v, O) else str(v))
+            rows.append(row)
     return rows
 
 
 def handle(case):
     variant = case.get("variant", 0)
-    out = {"rows": [], "errors": [], "extra": []}
+    out = {"rows": [], "errors": [], "extra": [], "rows2": []}
     for c in case["cases"]:
+        q = None
         try:
             q, V, d = make_query(case["cond"], c["dom"], c["sel"], variant)
             out["rows"].append(rows_of(list(q.evaluate()), V, c["sel"], d))
@@ -116,6 +135,17 @@ def handle(case):
         except Exception as ex:
             out["rows"].append([])
             out["errors"].append(f"{type(ex).__name__}: {ex}")
+        # the same query object, evaluated again after an in-place edit of attribute values
+        r2 = None
+        if case.get("reeval") and q is not None and out["errors"][-1] is None:
+            edit_world(True)
+            try:
+                r2 = rows_of(list(q.evaluate()), V, c["sel"], d)
+            except Exception as ex:
+                r2 = f"{type(ex).__name__}: {ex}"
+            finally:
+                edit_world(False)
+        out["rows2"].append(r2)
         ext = None
         if case.get("c02") and "n" in c:
             # the(...) and an(..., Exactly(n)) see the true number of solutions
